@@ -80,6 +80,11 @@ int main(void)
                 Target('lstep_ctor3', [Fn('lstep_ctor3', 'src/solver/lstep.cpp', 'lsearch_step_t', flt='lsearch_step_t::lsearch_step_t', kinds=('CXXConstructorDecl',),
                                           select=lambda d: len(astload.param_types(d)) == 3 and all('solver_state_t' not in t for t in astload.param_types(d)),
                                           **dict(ls_common, self_struct='struct nv_lstep'))], 'specs/C07/lstep.h')]
+    # interpolate selects between the kernels as documented (IEEE isfinite); kernels = ghost-recording stubs
+    sel_common = dict(COMMON, self_struct=None, calls=[(r'^cubic\|', 'nv_cubic_g({&0}, {&1})'), (r'^quadratic\|', 'nv_quadratic_g({&0}, {&1})'),
+                                                        (r'^bisection\|', 'nv_bisection_g({&0}, {&1})')] + CALLS)
+    targets += [Target('lstep_interpolate_select', [Fn('lstep_interpolate_sel', 'src/solver/lstep.cpp', 'interpolate', flt='lsearch_step_t::', **sel_common)],
+                       'specs/C07/lstep_sel.h')]
     import pred_smt
     import step_smt
     import adv_smt
